@@ -74,6 +74,9 @@ pub enum FEvent {
     Spawned(u32),
     /// a subscription whose consumer ends after this many items
     StreamTake(u32, u8),
+    /// `request(site).and(request(site + 500_000))`: two sibling tasks in one command, the first of
+    /// them the command's root task
+    Siblings(u32),
 }
 
 #[derive(Default)]
@@ -113,6 +116,7 @@ fn describe(e: &FEvent, depth: usize) -> String {
         FEvent::Chained(s, n) => format!("chained:{s}:{}", n.len()),
         FEvent::Spawned(s) => format!("spawned:{s}"),
         FEvent::StreamTake(s, n) => format!("take:{s}:{n}"),
+        FEvent::Siblings(s) => format!("siblings:{s}"),
     }
 }
 
@@ -153,6 +157,18 @@ impl crux_core::App for FuzzApp {
                     })
                     .then_send(got(site + 500_000)),
                 ),
+            FEvent::Siblings(site) => Command::request_from_shell(FOp {
+                site,
+                note: String::new(),
+            })
+            .then_send(got(site))
+            .and(
+                Command::request_from_shell(FOp {
+                    site: site + 500_000,
+                    note: String::new(),
+                })
+                .then_send(got(site + 500_000)),
+            ),
             FEvent::StreamTake(site, n) => Command::new(move |ctx| async move {
                 use futures::StreamExt as _;
                 let mut items = ctx.stream_from_shell(FOp {
